@@ -113,7 +113,7 @@ LEVELS = {
           'C02_bond_keeps_gap: a bond raises books and delegations by the same amount; C02_undelegation_exact: a batch undelegation lowers the books by exactly the sum of its Undelegate messages; C02_convert_keeps_sum. '
           'C02_reachable (every reachable state): from any state with books <= delegated, after any history of any length without a validator slash (any senders and contracts, failed transactions, time, slashing of unbonding stake, rewards) the hub still books at most what is delegated - proved through the message executor with the queue invariant "books + pending hub undelegations <= delegated + pending hub delegations", the pending staking messages forming a prefix of the queue (hub_books_step: every hub message; BookInv.step: every message of every contract and of the staking module). '
           'C02_direct_call_recognises: from any state, however stale after slashing, a successful Bond / BondForStSei / BondRewards / CheckSlashing transaction ends with books <= delegated. '
-          'The liquid-balance clause (funds in = delegate messages out) follows from the first theorem on the model chain and is compared on every implementation transaction.',
+          'C02_reserved (the liquid-balance clause, every reachable state): prev_hub_balance - the coins set aside for released unbonding claims - never exceeds the hub\'s liquid staking-denom balance, after any history whose top-level messages are not sent in the hub\'s name; queue invariant "prev_hub_balance + coins about to leave the hub (its pending Delegate messages and claim payouts) <= bank balance" (hub_fund_step: every hub message; handle_bank_ge: nobody but the sender can lower an account). Compared on every implementation transaction as well.',
   'note': 'Trusted: Lean kernel; hub, registry and chain models and the executor Sys.run; A-CHAIN-3 (Delegate/Undelegate/Redelegate move exactly the stated amounts). Recognition after a slash is stated for direct hub calls; for Unbond/Convert (which reach the hub through the token) it is the step theorem C02_books_le_delegated plus the oracle.',
   'technique': 'Lean 4 reachable-state theorem over the composed system (queue invariant through the message executor) on top of C12; books-vs-delegations oracle on every implementation transaction',
  },
